@@ -20,7 +20,8 @@ INPLACE = {'__iadd__': 0, '__isub__': 0, '__imul__': 0, '__itruediv__': 0, '__id
 STRUCTURAL = {'shift', 'init_jacobian', 'init_jac_vec', 'init_hessian', 'init_hess_vec', 'init_tensor', 'extract_jacobian',
               'extract_jac_vec', 'extract_hessian', 'extract_hess_vec', 'extract_tensor', 'FtoJT', 'JTtoF', 'coeff_op',
               'combine_blocks', 'as_utpm', 'clone', 'copy', 'zeros_like', 'ones_like', 'zeros', '__len__', 'get_flat',
-              '__setitem__', 'set_zero', 'iouter', 'broadcast', 'piv2mat', 'piv2det', 'eigh1', 'lu_factor'}
+              '__setitem__', 'set_zero', 'iouter', 'broadcast', 'piv2mat', 'piv2det', 'eigh1', 'lu_factor',
+              '__floordiv__'}      # floordiv shifts coefficients by design (L'Hospital) and loops forever on an all-zero divisor
 
 
 def _datas(res):
@@ -32,11 +33,20 @@ def _datas(res):
     return None
 
 
-def _scale(d):
-    """cumulative per-order magnitude s[k] = max_{j<=k} max|d[j]| (shape (D,1..))"""
+def _scale(d, floor=0.0):
+    """cumulative per-order magnitude s[k] = max_{j<=k} max|d[j]| (shape (D,1..)), plus an operand-size floor"""
     D = d.shape[0]
     m = np.abs(d).reshape(D, -1).max(axis=1) if d.size else np.zeros(D)
-    return np.maximum.accumulate(m) + 1e-300
+    return np.maximum.accumulate(m) + floor + 1e-300
+
+
+def _operand_floor(ev):
+    """rounding of a cancelling result (e.g. dot(A.T, nullspace)) is proportional to the operands, not to the result"""
+    S = 1.0
+    for (_, _, c) in ev.snaps:
+        if c.size and c.dtype.kind in 'fc':
+            S *= max(1.0, float(np.max(np.abs(c)))) * max(1.0, float(c.shape[-1] if c.ndim else 1))
+    return 1e-4 * S
 
 
 class ImmutabilityMonitor(Monitor):
@@ -126,7 +136,7 @@ class DirectionMonitor(Monitor):
             for a, b in zip(full, one):
                 if a[:, p:p + 1].shape != b.shape:
                     self.ctx.violation('direction:%s:shape' % ev.name, {'call': ev.name, 'direction': p, 'full': a.shape, 'single': b.shape}); return
-                s = _scale(b)
+                s = _scale(b, _operand_floor(ev))
                 err = np.abs(a[:, p:p + 1] - b).reshape(b.shape[0], -1).max(axis=1) if b.size else np.zeros(b.shape[0])
                 if not np.all(err <= self.TOL * s):
                     d_bad = int(np.argmax(err / s))
@@ -187,7 +197,7 @@ class TruncationMonitor(Monitor):
             for a, b in pairs:
                 if a[:Dp].shape != b.shape:
                     self.ctx.violation('truncation:%s:shape' % ev.name, {'call': ev.name, 'D': D, 'Dp': Dp, 'full': a.shape, 'truncated': b.shape}); return
-                s = _scale(b)
+                s = _scale(b, _operand_floor(ev))
                 err = np.abs(a[:Dp] - b).reshape(Dp, -1).max(axis=1) if b.size else np.zeros(Dp)
                 if not np.all(err <= self.TOL * s):
                     self.ctx.violation('truncation:%s:value' % ev.name, {'call': ev.name, 'D': D, 'Dp': Dp, 'first_bad_order': int(np.argmax(err / s)),
@@ -295,7 +305,12 @@ class ZerothMonitor(Monitor):
                 if not np.all(np.isfinite(r.astype(complex))):
                     continue
                 sc = np.max(np.abs(r)) + 1e-300 if r.size else 1.0
-                if r.size and not np.max(np.abs(g - r)) <= self.TOL * max(sc, 1e-3):
+                # rounding of a cancelling result is proportional to the size of the operands, not of the result
+                S = 1.0
+                for a_ in args:
+                    if isinstance(a_, np.ndarray) and a_.size and a_.dtype.kind in 'fc':
+                        S *= max(1.0, float(np.max(np.abs(a_)))) * max(1.0, float(a_.shape[-1] if a_.ndim else 1))
+                if r.size and not np.max(np.abs(g - r)) <= self.TOL * max(sc, 1e-3) + 1e-14 * S:
                     self.ctx.violation('zeroth:%s:value' % name, {'call': name, 'output': k, 'direction': p, 'P': P, 'err': float(np.max(np.abs(g - r)) / sc)}); return
             if single and name not in PARTIAL and name != 'argmax':
                 r = refs[0]
